@@ -216,7 +216,11 @@ func synthTable(r *hx.Rand, i int) (file, probeB, probeU []byte) {
 		}
 		line := f0 + " " + f1
 		if k == defect {
-			switch r.Intn(14) {
+			switch r.Intn(16) {
+			case 14:
+				line = f0 + " " + f1 + " # comment" // an inline comment: four fields, the row is skipped
+			case 15:
+				line = f0 + " " + f1 + "\t# comment" // behind a tab the comment is part of field 2: odd hex or a 3rd pair
 			case 0:
 				line = f0 // one field
 			case 1:
